@@ -351,6 +351,27 @@ def initState (solve : List (List α) → List α → Option (List α))
         some { cold with P := P, Pin := idx, s := s, d := s, w := vsub b (matVec A s) }
       else some cold
 
+/-- The prologue as it was BEFORE fixes/D4 (kept only to state the defect formally, Props/C05.lean
+    `d4_legacy_warm_start_not_optimal`; the driver never runs it): the passive-set solution is clipped
+    (`d = s_chol.clip(min=0)`) and `w` stays the gradient at `d = 0`. -/
+def initStateLegacy (solve : List (List α) → List α → Option (List α))
+    (A : List (List α)) (b : List α) (idx : List Nat) : Option (St α) :=
+  let n := A.length
+  let P := maskOfIndices n idx
+  let asc := maskIndices P
+  match solveOn solve A b asc with
+  | none => none
+  | some x =>
+    let s := scatter (zeros n) asc x
+    some { P := P, Pin := idx, s := s, d := s.map fun v => if v < 0 then 0 else v,
+           w := vsub b (matVec A (zeros n)), noUpdate := 0, loopCount := 0, loopCount2 := 0 }
+
+def fnnlsLegacy (solve : List (List α) → List α → Option (List α))
+    (A : List (List α)) (b : List α) (tol : α) (maxIter : Nat) (idx : List Nat) : Outcome α :=
+  match initStateLegacy solve A b idx with
+  | none => .err .singular
+  | some st => outerLoop solve A b tol maxIter (maxIter + 2) st
+
 /-- `fnnls_cholesky(ZTZ, ZTx, P_initial)`; `tol` is `2.2204e-16 * n`. -/
 def fnnls (solve : List (List α) → List α → Option (List α))
     (A : List (List α)) (b : List α) (tol : α) (maxIter : Nat) (pInit : Option (List Nat)) : Outcome α :=
